@@ -188,15 +188,18 @@ def gen_case(rng):
                 for _ in range(rng.randint(1, 3)):
                     new.append(gen.absent_label(rng, l + new, k))
                 axes2[d] = (new, k)
-            elif rng.random() < 0.4 and first["dims"]:
-                # differing secondary axis: needs align=True
-                q = rng.choice(first["dims"])
+            if rng.random() < 0.4 and [q for q in first["dims"] if q != (d if what == 'concat_ds' else None)]:
+                # differing secondary axis: needs align=True, is refused without
+                q = rng.choice([q for q in first["dims"] if q != (d if what == 'concat_ds' else None)])
                 l, k = first["axes"][q]
                 l2 = [x for x in l if rng.random() < 0.7] + [gen.absent_label(rng, l, k)]
                 axes2[q] = (gen.reorder(rng, sorted(l2), rng.choice(['inc', 'dec', 'shuf'])), k)
                 c["align"] = True
+                c["misaligned"] = True
             lst.append(gen_ds(rng, dims=first["dims"], axes=axes2, keys=[(k, v["dims"]) for k, v in first["vars"].items()]))
         c["list"] = lst
+        if c.get("misaligned") and rng.random() < 0.3:
+            c["align"] = False          # must then be refused, as stack / concatenate of the variables are
         c["sort"] = c.get("align", False) and rng.random() < 0.5
         c["keys"] = rng.choice([None, rng.sample(['p', 'q', 'r'], nds), rng.sample([10, 20, 30], nds)])
         c["as_dict"] = what == 'stack_ds' and c["keys"] is not None and rng.random() < 0.4
@@ -347,14 +350,34 @@ def check(case, ctx):
                 label = "stack_ds(list of %d, axis='new', keys=%r, %s)" % (len(lst), keys, akw)
                 fn = lambda: da.stack_ds(lst, axis='new', keys=keys, **akw)
             # variables lacking a dimension are untouched by the datasets' alignment: align only what each variable has
-            exp = {k: da.stack([f[k] for f in frees], axis='new', keys=keys, **akw) for k in names}
+            expected_all = lambda: {k: da.stack([f[k] for f in frees], axis='new', keys=keys, **akw) for k in names}
         else:
-            label = "concatenate_ds(list of %d, axis=%r)" % (len(lst), d)
+            akw = {"align": True, "sort": case.get("sort", False)} if case.get("align") else {}
+            label = "concatenate_ds(list of %d, axis=%r, %s)" % (len(lst), d, akw)
             if list(lst[0].dims).index(d) == 0 and case["by_pos"]:
-                fn = lambda: da.concatenate_ds(lst)          # axis=0 is the default
+                fn = lambda: da.concatenate_ds(lst, **akw)          # axis=0 is the default
             else:
-                fn = lambda: da.concatenate_ds(lst, axis=d)
-            exp = {k: da.concatenate([f[k] for f in frees], axis=d) for k in names}
+                fn = lambda: da.concatenate_ds(lst, axis=d, **akw)
+            expected_all = lambda: {k: da.concatenate([f[k] for f in frees], axis=d, **akw) for k in names}
+        if case.get("misaligned") and not case.get("align"):
+            # differing secondary labels and no align: the DimArray functions refuse, so must the Dataset ones
+            ctx.outcomes['joined-datasets-misaligned-no-align'] += 1
+            res_, exc_ = ctx.call(label, fn, operands=tuple(operands))
+            if exc_ is None:
+                try:
+                    expected_all()
+                    refused = False
+                except Exception:
+                    refused = True
+                if refused:
+                    ctx.v(ID, "joined-misaligned-accepted:" + what, "%s joined datasets whose secondary axes differ although align was not asked for "
+                          "(stack / concatenate of the variables raise)" % label)
+            return (what, 'misaligned-no-align')
+        try:
+            exp = expected_all()
+        except Exception as e:
+            exp = None
+            expected = lambda v: (_ for _ in ()).throw(e)
     label += " on Dataset(%s)" % ", ".join("%s:%r" % (k, tuple(v["dims"])) for k, v in (case["list"][0] if what in ('stack_ds', 'concat_ds') else dsp)["vars"].items())
     # expected first (on the free-standing twins), so that an exception there is attributed correctly
     exp_exc = None
